@@ -35,6 +35,15 @@ pub const METHODS: [&str; 7] = ["GET", "PUT", "POST", "PATCH", "DELETE", "HEAD",
 fn is_tchar(b: u8) -> bool { super::http::is_token_char(b) }
 
 pub fn parse_request(input: &[u8]) -> Parse {
+    // empty lines in front of the request-line: RFC 9112 2.2 asks a robust server to ignore at least one; the statement's subset
+    // does not have them.  Both are admitted: refusing / closing, or reading the request that follows.
+    let skip = { let mut k = 0; while input[k..].starts_with(b"\r\n") { k += 2 } k };
+    if skip > 0 {
+        return match parse_request(&input[skip..]) {
+            Parse::Complete(mut r) => { r.consumed += skip; r.head_len += skip; r.open.push("leading-empty-line"); Parse::Complete(r) }
+            _ => Parse::Invalid("request-line", "method"),
+        }
+    }
     let mut open = vec![];
     // ---- method ----
     let Some(sp) = input.iter().position(|b| *b == b' ') else {
